@@ -52,7 +52,7 @@ var c20Kinds = []string{"ngap-enc", "ngap-dec", "nas-plain", "protect", "unprote
 
 func genC20(t *rapid.T) c20Case {
 	g := rapid.SampledFrom([]int{2, 2, 4, 8, 8, 16, 64}).Draw(t, "goroutines")
-	c := c20Case{Procs: rapid.SampledFrom([]int{2, 16}).Draw(t, "gomaxprocs")}
+	c := c20Case{Procs: rapid.SampledFrom([]int{1, 2, 2, 16, 16}).Draw(t, "gomaxprocs")}
 	maxOps := 60
 	if g >= 16 {
 		maxOps = 24
